@@ -32,9 +32,13 @@ func loadProgram(repo, goos string, patterns []string) (*Program, error) {
 		if len(p.Errors) > 0 {
 			return nil, fmt.Errorf("package %s: %v", p.PkgPath, p.Errors[0])
 		}
-		mainPkgPaths.Store(p.PkgPath, true)
 		if prog.Main == nil {
 			prog.Main = p
+		}
+		if p == prog.Main {
+			mainPkgPaths.Store(p.PkgPath, "")
+		} else {
+			mainPkgPaths.Store(p.PkgPath, p.Name+".")
 		}
 		for _, f := range p.Syntax {
 			for _, d := range f.Decls {
@@ -47,9 +51,6 @@ func loadProgram(repo, goos string, patterns []string) (*Program, error) {
 					continue
 				}
 				fi := &FuncInfo{Key: funcKeyOf(obj), Decl: fd, Obj: obj, Pkg: p, LoopOrd: loopOrdinals(fd.Body)}
-				if p != prog.Main {
-					fi.Key = p.Name + "." + fi.Key
-				}
 				prog.Funcs[fi.Key] = fi
 				prog.FuncsByObj[obj] = fi
 			}
@@ -255,6 +256,20 @@ func verifyFunc(prog *Program, fi *FuncInfo, fc *FuncContract, mode *ModeDef) (r
 	for _, l := range x.lockClasses() {
 		x.setHeap(st, x.didLockKey(l), tFalse)
 	}
+	if fc.Thread {
+		// a new goroutine holds exactly the tokens handed to it
+		for _, tok := range allTokens(prog.Contracts) {
+			has := false
+			for _, c := range fc.Consumes {
+				if c == tok {
+					has = true
+				}
+			}
+			if !has {
+				x.setHeap(st, x.tokKey(tok), tFalse)
+			}
+		}
+	}
 	x.entry = st.clone()
 	heldAtEntry := map[string]Term{}
 	for _, l := range x.lockClasses() {
@@ -348,4 +363,36 @@ func verifyLemmas(prog *Program, tag string) *VerifyResult {
 		}
 	}
 	return res
+}
+
+
+func allTokens(cs *Contracts) []string {
+	set := map[string]bool{}
+	for _, ts := range cs.AllocGrants {
+		for _, t := range ts {
+			set[t] = true
+		}
+	}
+	for _, a := range cs.Chans {
+		if a.Closer != "" {
+			set[a.Closer] = true
+		}
+		if a.Sender != "" {
+			set[a.Sender] = true
+		}
+	}
+	for _, t := range cs.Confined {
+		set[t] = true
+	}
+	for _, fc := range cs.Funcs {
+		for _, t := range fc.Consumes {
+			set[t] = true
+		}
+		for _, e := range fc.Effects {
+			if strings.HasPrefix(e.Var, "tok:") {
+				set[e.Var[4:]] = true
+			}
+		}
+	}
+	return sortedKeys(set)
 }
